@@ -1051,73 +1051,171 @@ theorem pyFloatRepr_litOk (r : Text) (h : isPyFloatRepr r = true) : floatLitOk r
     rw [hlu, hu]
     simp [a, b, hn', d]
 
-/-! ## For values of the domain, the side condition is exactly "avoids the documented defect" -/
+/-! ## Every value of the domain satisfies the side condition -/
 
 mutual
-theorem elemReadable_eq_avoids : ∀ (e : Elem), elemInDomain e = true →
-    elemReadable e = elemAvoids e
+theorem elemInDomain_readable : ∀ (e : Elem), elemInDomain e = true → elemReadable e = true
   | .none, _ => rfl
   | .bool _, _ => rfl
-  | .int _, _ => rfl
+  | .int _, h => by simpa [elemInDomain, elemReadable] using h
   | .float r, h => by
     simp only [elemInDomain] at h
-    simp only [elemReadable, elemAvoids, pyFloatRepr_litOk r h]
-  | .str s, h => by simpa [elemReadable, elemAvoids, elemInDomain] using h
+    simp only [elemReadable, pyFloatRepr_litOk r h]
+  | .str s, h => by simpa [elemReadable, elemInDomain] using h
   | .list xs, h => by
     simp only [elemInDomain] at h
-    simp only [elemReadable, elemAvoids]
-    exact elemsReadable_eq_avoid xs h
-theorem elemsReadable_eq_avoid : ∀ (xs : List Elem), elemsInDomain xs = true →
-    elemsReadable xs = elemsAvoid xs
+    simp only [elemReadable]
+    exact elemsInDomain_readable xs h
+theorem elemsInDomain_readable : ∀ (xs : List Elem), elemsInDomain xs = true → elemsReadable xs = true
   | [], _ => rfl
   | x :: xs, h => by
     simp only [elemsInDomain, Bool.and_eq_true] at h
-    simp only [elemsReadable, elemsAvoid, elemReadable_eq_avoids x h.1, elemsReadable_eq_avoid xs h.2]
+    simp only [elemsReadable, elemInDomain_readable x h.1, elemsInDomain_readable xs h.2, Bool.and_self]
 end
 
 mutual
-theorem valReadable_eq_avoids : ∀ (v : PyVal), valInDomain v = true → valReadable v = valAvoids v
+theorem valInDomain_readable : ∀ (v : PyVal), valInDomain v = true → valReadable v = true
   | .elem e, h => by
     simp only [valInDomain] at h
-    simp only [valReadable, valAvoids, elemReadable_eq_avoids e h]
+    simp only [valReadable, elemInDomain_readable e h]
   | .dict kvs, h => by
     simp only [valInDomain, Bool.and_eq_true] at h
-    simp only [valReadable, valAvoids, h.1, Bool.true_and]
-    exact kvsReadable_eq_avoid kvs h.2
-theorem kvsReadable_eq_avoid : ∀ (kvs : List (Text × PyVal)), kvsInDomain kvs = true →
-    kvsReadable kvs = kvsAvoid kvs
+    simp only [valReadable, h.1, Bool.true_and]
+    exact kvsInDomain_readable kvs h.2
+theorem kvsInDomain_readable : ∀ (kvs : List (Text × PyVal)), kvsInDomain kvs = true → kvsReadable kvs = true
   | [], _ => rfl
   | (k, v) :: rest, h => by
     simp only [kvsInDomain, Bool.and_eq_true] at h
-    simp only [kvsReadable, kvsAvoid, h.1.1, Bool.true_and, valReadable_eq_avoids v h.1.2,
-      kvsReadable_eq_avoid rest h.2]
+    simp only [kvsReadable, h.1.1, valInDomain_readable v h.1.2,
+      kvsInDomain_readable rest h.2, Bool.and_self]
 end
 
-theorem ctxReadable_eq_avoids (c : Ctx) (h : ctxInDomain c = true) : ctxReadable c = ctxAvoids c := by
+theorem ctxInDomain_readable (c : Ctx) (h : ctxInDomain c = true) : ctxReadable c = true := by
   cases c with
-  | fromDict d =>
-    simp only [ctxInDomain] at h
-    have := valReadable_eq_avoids (.dict d) h
-    simpa [ctxReadable, ctxAvoids, valAvoids] using this
-  | values d =>
-    simp only [ctxInDomain] at h
-    have := valReadable_eq_avoids (.dict d) h
-    simpa [ctxReadable, ctxAvoids, valAvoids] using this
+  | fromDict d => exact valInDomain_readable (.dict d) h
+  | values d => exact valInDomain_readable (.dict d) h
   | binding k v =>
     simp only [ctxInDomain, Bool.and_eq_true] at h
-    simp [ctxReadable, ctxAvoids, h.1, valReadable_eq_avoids v h.2]
-  | list xs =>
-    simp only [ctxInDomain] at h
-    simp [ctxReadable, ctxAvoids, elemsReadable_eq_avoid xs h]
+    simp [ctxReadable, h.1, valInDomain_readable v h.2]
+  | list xs => exact elemsInDomain_readable xs h
   | setItem d k v =>
     simp only [ctxInDomain, Bool.and_eq_true] at h
-    have := valReadable_eq_avoids (.dict d) h.1.1
-    simp only [valAvoids] at this
-    simp [ctxReadable, ctxAvoids, this, h.1.2, valReadable_eq_avoids v h.2]
+    simp [ctxReadable, valInDomain_readable (.dict d) h.1.1, h.1.2, valInDomain_readable v h.2]
   | setItemOn d ml k v =>
     simp only [ctxInDomain, Bool.and_eq_true] at h
-    have := valReadable_eq_avoids (.dict d) h.1.1
-    simp only [valAvoids] at this
-    simp [ctxReadable, ctxAvoids, this, h.1.2, valReadable_eq_avoids v h.2]
+    simp [ctxReadable, valInDomain_readable (.dict d) h.1.1, h.1.2, valInDomain_readable v h.2]
+
+/-! ## Refusal: `rebuild()` raises exactly when the data holds an integer Nix cannot write -/
+
+theorem coerceIntMax_eq : coerceIntMax = nixIntMax := rfl
+
+mutual
+theorem elemRefused_eq : ∀ e : Elem, elemRefused e = dataOutOfRange (denoteE e)
+  | .none => rfl
+  | .bool _ => rfl
+  | .int i => by simp [elemRefused, intRefused, denoteE, dataOutOfRange, coerceIntMax_eq]
+  | .float r => by
+    simp only [elemRefused, denoteE, floatData]
+    split <;> rfl
+  | .str _ => rfl
+  | .list xs => by simp only [elemRefused, denoteE, dataOutOfRange, elemsRefused_eq xs]
+theorem elemsRefused_eq : ∀ xs : List Elem, elemsRefused xs = dataListOutOfRange (denoteEs xs)
+  | [] => rfl
+  | x :: xs => by simp only [elemsRefused, denoteEs, dataListOutOfRange, elemRefused_eq x, elemsRefused_eq xs]
+end
+
+mutual
+theorem exprRefused_eq : ∀ x : Expr, exprRefused x = dataOutOfRange (denoteX x)
+  | .raw e => by simp only [exprRefused, denoteX, elemRefused_eq e]
+  | .aset bs _ => by simp only [exprRefused, denoteX, dataOutOfRange, bsRefused_eq bs]
+theorem bsRefused_eq : ∀ bs : List (Text × Expr), bsRefused bs = dataKvsOutOfRange (denoteBs bs)
+  | [] => rfl
+  | (k, v) :: rest => by simp only [bsRefused, denoteBs, dataKvsOutOfRange, exprRefused_eq v, bsRefused_eq rest]
+end
+
+mutual
+theorem elemReadable_not_refused : ∀ e : Elem, elemReadable e = true → elemRefused e = false
+  | .none, _ => rfl
+  | .bool _, _ => rfl
+  | .int i, h => by
+    simp only [elemReadable, decide_eq_true_eq] at h
+    simp only [elemRefused, intRefused, coerceIntMax_eq]
+    exact decide_eq_false (by omega)
+  | .float _, _ => rfl
+  | .str _, _ => rfl
+  | .list xs, h => by
+    simp only [elemReadable] at h
+    simp only [elemRefused]
+    exact elemsReadable_not_refused xs h
+theorem elemsReadable_not_refused : ∀ xs : List Elem, elemsReadable xs = true → elemsRefused xs = false
+  | [], _ => rfl
+  | x :: xs, h => by
+    simp only [elemsReadable, Bool.and_eq_true] at h
+    simp only [elemsRefused, elemReadable_not_refused x h.1, elemsReadable_not_refused xs h.2, Bool.or_self]
+end
+
+mutual
+theorem exprReadable_not_refused : ∀ x : Expr, exprReadable x = true → exprRefused x = false
+  | .raw e, h => by
+    simp only [exprReadable] at h
+    simp only [exprRefused, elemReadable_not_refused e h]
+  | .aset bs _, h => by
+    simp only [exprReadable, Bool.and_eq_true] at h
+    simp only [exprRefused]
+    exact bsReadable_not_refused bs h.2
+theorem bsReadable_not_refused : ∀ bs : List (Text × Expr), bsReadable bs = true → bsRefused bs = false
+  | [], _ => rfl
+  | (k, v) :: rest, h => by
+    simp only [bsReadable, Bool.and_eq_true] at h
+    simp only [bsRefused, exprReadable_not_refused v h.1.2, bsReadable_not_refused rest h.2, Bool.or_self]
+end
+
+/-- item assignment denotes `d[k] = v`, whatever the values are -/
+theorem denoteX_setItem (bs : List (Text × Expr)) (ml : Bool) (k : Text) (v : PyVal) :
+    denoteX (setItem (.aset bs ml) k v) = .attrs (dictSet (denoteBs bs) k (denote v)) := by
+  simp only [setItem]
+  cases hr : replaceFirst k (bindValue v) bs with
+  | some bs' =>
+    obtain ⟨_, _, h3⟩ := replaceFirst_some bs bs' k _ hr
+    simp only [denoteX, h3, denoteX_bindValue]
+  | none =>
+    have hnot := replaceFirst_none bs k _ hr
+    simp only [denoteX]
+    rw [denoteBs_append bs k _ hnot, denoteX_bindValue]
+
+/-- The object a context builds denotes the data the context is expected to read back as (a lone
+    binding is expected as a one-binding set). -/
+theorem denoteX_ctxExpr (c : Ctx) :
+    dataOutOfRange (denoteX (ctxExpr c)) = dataOutOfRange (expected c) := by
+  cases c with
+  | fromDict d => simp only [ctxExpr, fromDict_eq, denoteX_bindValue, denote, expected]
+  | values d => simp only [ctxExpr, valuesCtor_eq, fromDict_eq, denoteX_bindValue, denote, expected]
+  | binding k v =>
+    simp only [ctxExpr, denoteX_bindValue, expected, dataOutOfRange, dataKvsOutOfRange, Bool.or_false]
+  | list xs => simp only [ctxExpr, denoteX, denoteE, expected]
+  | setItem d k v => simp only [ctxExpr, fromDict, denoteX_setItem, denoteBs_bindAll, expected]
+  | setItemOn d ml k v => simp only [ctxExpr, denoteX_setItem, denoteBs_bindAll, expected]
+
+/-- what a readable context builds is readable -/
+theorem ctxExpr_readable (c : Ctx) (h : ctxReadable c = true) : exprReadable (ctxExpr c) = true := by
+  cases c with
+  | fromDict d => simpa [ctxExpr, fromDict_eq] using bindValue_readable (.dict d) h
+  | values d => simpa [ctxExpr, valuesCtor_eq, fromDict_eq] using bindValue_readable (.dict d) h
+  | binding k v =>
+    simp only [ctxReadable, Bool.and_eq_true] at h
+    exact bindValue_readable v h.2
+  | list xs => simpa [ctxExpr, exprReadable, elemReadable, ctxReadable] using h
+  | setItem d k v =>
+    simp only [ctxReadable, Bool.and_eq_true] at h
+    have hs : exprReadable (.aset (bindAll d) (d.length != singleBindingCount)) = true := by
+      have := bindValue_readable (.dict d) h.1.1
+      simpa [bindValue] using this
+    exact (setItem_spec (bindAll d) _ k v hs h.1.2 h.2).1
+  | setItemOn d ml k v =>
+    simp only [ctxReadable, Bool.and_eq_true] at h
+    have hs : exprReadable (.aset (bindAll d) ml) = true := by
+      have := bindValue_readable (.dict d) h.1.1
+      simpa [bindValue, exprReadable] using this
+    exact (setItem_spec (bindAll d) ml k v hs h.1.2 h.2).1
 
 end Nima
